@@ -54,8 +54,13 @@ func SetBackend(b Backend, id int) {
 
 // NewAddress returns a variable of type Address, which can be used
 // for unmarshalling an address from its binary representation.
+// It returns nil if no backend is registered for the given id.
 func NewAddress(id BackendID) Address {
-	return backend[id].NewAddress()
+	b, ok := backend[id]
+	if !ok || b == nil {
+		return nil
+	}
+	return b.NewAddress()
 }
 
 // DecodeSig calls DecodeSig of all Backends and returns an error if none return a valid signature.
